@@ -312,15 +312,27 @@ func trunc(b []byte) string {
 
 var nextPort, socketCases int
 
+var portLocks []net.Listener // held until the process ends
+
 // freePort hands out port triples from a range that belongs to this shard alone (other
 // shards and other checks run at the same time and must not pick the same numbers), below
-// the kernel's ephemeral range.
+// the kernel's ephemeral range. Another run of this check on the same machine (a second
+// tier, a second copy) has the same ranges: a triple is therefore also claimed with an
+// abstract unix socket named after it (exclusive per network namespace like the ports
+// themselves, no file, released by the kernel when the process ends).
 func freePort(proto string) (int, error) {
 	shard, _ := strconv.Atoi(os.Getenv("VERIF_SHARD"))
 	lo := 10000 + (shard%16)*1300
-	for i := 0; i < 400; i++ {
+	if nextPort == 0 {
+		nextPort = os.Getpid() % 430
+	}
+	for i := 0; i < 430; i++ {
 		p := lo + (nextPort*3)%1290
 		nextPort++
+		lf, err := net.Listen("unix", fmt.Sprintf("@verif-c08-port-%d", p))
+		if err != nil {
+			continue // claimed by another process
+		}
 		ok := true
 		for d := 0; d < 3 && ok; d++ {
 			if t, err := net.Listen("tcp", fmt.Sprintf("127.0.0.1:%d", p+d)); err != nil {
@@ -335,8 +347,10 @@ func freePort(proto string) (int, error) {
 			}
 		}
 		if ok {
+			portLocks = append(portLocks, lf)
 			return p, nil
 		}
+		lf.Close()
 	}
 	return 0, fmt.Errorf("no free port triple in this shard's range")
 }
